@@ -124,7 +124,16 @@ def model_values(model, nondet):
     for k, (kind, bits, term) in nondet.items():
         v = model.eval(term, model_completion=True)
         if kind == 'real':
-            vals[k] = ('real', v)
+            # nearest float of the declared width, as IEEE bits (replayable)
+            try:
+                if z3.is_rational_value(v):
+                    x = float(v.as_fraction())
+                else:
+                    x = float(v.approx(30).as_fraction())
+            except Exception:
+                x = 0.0
+            import fpops as _fp
+            vals[k] = _fp.bits_of_py(bits, _fp.rw(bits, x))
         else:
             vals[k] = v.as_long()
     return vals
